@@ -10,7 +10,7 @@ use std::ffi::OsString;
 
 pub static DEF: PropDef = PropDef {
     id: "C18",
-    rule: "random: a generated tree c/d (<=12 nodes, links included) plus a file, a link to the directory, a dangling link and entries whose names start with '-' or contain newlines/blanks x lists of 0-5 starting points drawn from: every spelling of the same directory (d, ./d, d/, d//, ./d/., d/../d, d/sub/.., absolute, c//d), '.', files, links, dangling links, missing names, duplicates x tail expression (-print0, with -maxdepth 0/1, -mindepth 1/2, -depth or a -name test) x follow mode (-P, -L) x how the list is given: as operands, through -files0-from FILE (with/without final NUL, empty names at any position), through -files0-from - (stdin; built binary). Oracle: stdout == concatenation, in the order given, of the reference walk of each starting point with its spelling as path prefix (no operand => walk of '.'); a starting point that cannot be examined => diagnostic + exit != 0 and every other one still present in order; empty names in a files0 list => a diagnostic, the rest unaffected; metamorphic: find -files0-from F EXPR and find NAMES... EXPR give the same stdout and exit class whenever all names can be written as operands. Non-trivial = >= 2 starting points with at least one non-plain spelling or a failing one, or a files0 list holding a name that cannot be an operand (leading '-', or an empty name). Distinct = distinct case JSON.",
+    rule: "random: a generated tree c/d (<=12 nodes, links included) plus a file, a link to the directory, a dangling link and entries whose names start with '-' or contain newlines/blanks x lists of 0-5 starting points drawn from: every spelling of the same directory (d, ./d, d/, d//, ./d/., d/../d, d/sub/.., absolute, c//d), '.', files, links, dangling links, missing names, duplicates x tail expression (-print0, with -maxdepth 0/1, -mindepth 1/2, -depth or a -name test) x follow mode (-P, -L) x how the list is given: as operands (1 in 5 after a '--'), through -files0-from FILE (with/without final NUL, empty names at any position), through -files0-from - (stdin; built binary). Oracle: stdout == concatenation, in the order given, of the reference walk of each starting point with its spelling as path prefix (no operand => walk of '.'); a starting point that cannot be examined => diagnostic + exit != 0 and every other one still present in order; empty names in a files0 list => a diagnostic, the rest unaffected; metamorphic: find -files0-from F EXPR and find NAMES... EXPR give the same stdout and exit class whenever all names can be written as operands. Non-trivial = >= 2 starting points with at least one non-plain spelling or a failing one, or a files0 list holding a name that cannot be an operand (leading '-', or an empty name). Distinct = distinct case JSON.",
     assumptions: &[
         "an empty -files0-from list is not compared with 'no operands' (the statement does not say)",
         "names in a files0 list are valid UTF-8, except for one existing file whose name is not, placed last: it must be walked or reported (diagnostic + non-zero exit), the other names being unaffected",
@@ -39,6 +39,9 @@ pub struct Case {
     /// files0 only: the list ends with the name of an existing file that is not valid UTF-8
     #[serde(default)]
     pub raw_last: bool,
+    /// operands only: "--" between the options and the starting points (or the expression)
+    #[serde(default)]
+    pub double_dash: bool,
 }
 
 const RAW_NAME: &[u8] = b"c/raw-\xe9-\xff";
@@ -90,7 +93,7 @@ pub fn gen_case(g: &mut Gen) -> Case {
         roots.push(d);
     }
     let empties = if via != 0 && g.chance(1, 3) { g.vec_of(1, 2, |g| g.usize_in(0, 5)) } else { vec![] };
-    Case { tree, roots, via, final_nul: g.chance(2, 3), empties, tail: g.weighted(&[4, 2, 2, 2, 1, 2, 1]) as u8, follow_l: g.chance(1, 4), binary: via == 2 || g.chance(1, 10), raw_last: via != 0 && g.chance(1, 6) }
+    Case { tree, roots, via, final_nul: g.chance(2, 3), empties, tail: g.weighted(&[4, 2, 2, 2, 1, 2, 1]) as u8, follow_l: g.chance(1, 4), binary: via == 2 || g.chance(1, 10), raw_last: via != 0 && g.chance(1, 6), double_dash: via == 0 && g.chance(1, 5) }
 }
 
 fn tail_tokens(t: u8) -> Vec<&'static str> {
@@ -237,6 +240,9 @@ pub fn check(ctx: &mut Ctx, c0: &Case) -> Outcome {
             args.extend(["-files0-from".to_string(), "-".to_string()]);
         }
     } else {
+        if c.double_dash {
+            args.push("--".into());
+        }
         args.extend(c.roots.iter().cloned());
     }
     args.extend(tail.iter().cloned());
